@@ -34,11 +34,15 @@ EXPLANATION = ("Every file-system call an operation makes is a fault site: the s
                "and the errno; the operation must raise DataAccessError or an OSError (never return normally, never another "
                "exception type) and the chunks stored earlier must still read back equal (symbolic contents). For "
                "interruptions the surviving prefix length is symbolic; a fresh reader must decode the correct array or raise "
-               "a data-access / format / OS error, never a wrong array.")
+               "a data-access / format / OS error, never a wrong array. For the HTTP accessors every request of a fetch / probe is a "
+               "fault site of the model server (one request or all later ones answered 401/403/404/429/500/502/503/504, a reset "
+               "connection, a short / over-long / whole-file reply to a Range request): the call must raise DataAccessError or "
+               "return exactly the local bytes, never the error page.")
 BOUNDS = {"quick": "datasets with 2 chunks stored + 1 operation (store_chunk, store_file, fetch_chunk, fetch_file, file_exists, sharded "
                    "close); every call site x {ENOSPC, EACCES, EIO, ENOENT}; file layouts flat/deep x gzip on/off; sharded (1,1,0); "
                    "interruption before every call of a chunk write (raw and compressed_segmentation, gzip on/off, overwrite of an "
-                   "existing chunk) and of Shard.close, every surviving prefix length",
+                   "existing chunk) and of Shard.close, every surviving prefix length; HTTP: every request index x fault kind of plain "
+                   "and sharded reads (the C14 quick grid)",
           "thorough": "more layouts and errnos (EDQUOT, EROFS, EMFILE, ENAMETOOLONG, ENOTDIR, EFBIG); sharded faults under 3 more sharding specs x both writers; interrupted sharded close under 5 sharding specs x {in memory, on disk}; HTTP request faults on the C14 thorough grid"}
 OUTSIDE = ["real kernel behaviour (partial write(2), fsync ordering, torn sectors beyond prefix truncation)", "JPEG",
            "HTTP faults other than one / all later requests answered 404, 403, 500, 503 or a reset connection"]
